@@ -181,3 +181,7 @@ fn c12_payload_ipv6() {
         i += 1;
     }
 }
+
+/// Harness-side mutable statics to reset between native witness-search trials (none here).
+#[allow(dead_code)]
+fn verif_reset_statics() {}
